@@ -70,6 +70,29 @@ def gen_examples(rng, nmax=8):
     return out
 
 
+def gen_drift(rng):
+    """Examples of one coarse shape whose refinement depends on which of them are in the working set (hex letters /
+    any letters, one or two punctuation marks), with other shapes around: under sampling a string matched on one
+    pass can stop being matched on the next, so the extend loop has to run until nothing new fails."""
+    upper = rng.random() < 0.5
+    # narrow (letters of one case that are also hex letters), widening (hex digits of the other kind) and
+    # outsiders (same case, not hex): narrow + outsiders share a letter class that narrow + widening do not
+    narrow = ['CA', 'AB', 'F', 'DE', 'B', 'FA'] if upper else ['ca', 'ab', 'f', 'de', 'b', 'fa']
+    widening = ['c', '3', 'b7', 'e', '9', '0f'] if upper else ['C', '3', 'B7', 'E', '9', '0F']
+    outsiders = ['US', 'ZQ', 'G', 'XY', 'K'] if upper else ['us', 'zq', 'g', 'xy', 'k']
+    hexish = narrow + narrow + widening
+    anyish = outsiders
+    punc = ['$', '^', '-', '-^', '$-', '^$']
+    fam = [rng.choice(hexish) + rng.choice(punc) + str(rng.randrange(10)) for _ in range(rng.choice([3, 4, 5]))]
+    fam += [rng.choice(anyish) + rng.choice(punc) + str(rng.randrange(10)) for _ in range(rng.choice([1, 2]))]
+    noise = rng.sample(['', '$5', 'Qab', '-', 'a1 a1 a1 ', 'A1B2', '$7', '(a1)+', 'x', '10.5', 'ab cd', '#'], rng.choice([4, 6, 8]))
+    out = fam + noise + [rng.choice(fam + noise) for _ in range(rng.choice([0, 2, 4]))]
+    rng.shuffle(out)
+    size = dict(do_all=rng.choice([2, 3]), do_all_exceptions=rng.choice([1, 2]), n_per_length=64,
+                max_sampled_attempts=rng.choice([1, 2, 3]))
+    return out, size
+
+
 def gen_opts(rng):
     o = {}
     if rng.random() < 0.3:
